@@ -12,6 +12,6 @@ for w in $UNFINISHED; do
 done
 cd /tmp/hx-main
 cargo build --release 2>&1 | grep -E "^error" -A12 | head -40
-cargo build --profile dbg 2>&1 | grep -E "^error" -A12 | head -40
+cargo build --profile dbg --target-dir /tmp/hx-main/target/dbg-build 2>&1 | grep -E "^error" -A12 | head -40
 cp /verif/known_findings.jsonl /tmp/hx-main-out/ 2>/dev/null || true
 echo built
